@@ -305,6 +305,9 @@ func TestLinkReal(t *testing.T) {
 							r.Emit("lerr", "dir", "ab", "op", "send", "r", err)
 							return
 						}
+						for i := range body { // Send copied: the buffer is the caller's again at once
+							body[i] = 0xEE
+						}
 						gb, err := cb.Recv()
 						if err != nil {
 							r.Emit("lerr", "dir", "ab", "op", "recv", "r", err)
@@ -317,6 +320,9 @@ func TestLinkReal(t *testing.T) {
 						if err := cb.Send(back); err != nil {
 							r.Emit("lerr", "dir", "ba", "op", "send", "r", err)
 							return
+						}
+						for i := range back {
+							back[i] = 0xEE
 						}
 						rb, err := ca.Recv()
 						if err != nil {
